@@ -9,6 +9,7 @@ use std::io::ErrorKind;
 const INITIAL_RESPONSE_HEADERS_BUFFER_SIZE: usize = 32;
 const MAX_RESPONSE_HEADERS_NUM: usize = 128;
 const MAX_RESPONSE_HEADERS_SIZE: usize = 64 * 1024;
+const MAX_ENCODED_CHUNK_PREFIX_SIZE: usize = 16 * 1024;
 const ENCODED_CHUNK_SUFFIX: &str = "\r\n";
 
 /// Wrap the `stream` with a non-CONNECT request into a wrapper which forwards the request
@@ -456,6 +457,12 @@ impl ForwardedStreamSink {
                 (chunk_size, data.split_off(pos))
             }
             Ok(httparse::Status::Partial) => {
+                if data.len() > MAX_ENCODED_CHUNK_PREFIX_SIZE {
+                    return Err(io::Error::new(
+                        ErrorKind::Other,
+                        "Encoded chunk size line is too long",
+                    ));
+                }
                 state.buffer = BytesMut::from(data.as_ref());
                 return Ok(Bytes::new());
             }
